@@ -1320,6 +1320,8 @@ pub(crate) mod copy_slice_impl {
     // - `src_addr` must point to a properly initialized value, which is true here because
     //   we're only using integer primitives.
     unsafe fn copy_single(align: usize, src_addr: *const u8, dst_addr: *mut u8) {
+        #[cfg(vm_memory_verif)]
+        crate::verif::access(align, src_addr, dst_addr);
         match align {
             8 => write_volatile(dst_addr as *mut u64, read_volatile(src_addr as *const u64)),
             4 => write_volatile(dst_addr as *mut u32, read_volatile(src_addr as *const u32)),
@@ -1397,6 +1399,8 @@ pub(crate) mod copy_slice_impl {
             //   invariant
             // - src and dst are properly aligned, as any alignment is valid for u8
             // - The regions are not overlapping by function invariant
+            #[cfg(vm_memory_verif)]
+            crate::verif::bulk(src, dst, total);
             unsafe {
                 std::ptr::copy_nonoverlapping(src, dst, total);
             }
